@@ -207,9 +207,9 @@ func (e *exec) step(l letter, record bool) (res string) {
 		raw := []byte(fmt.Sprintf("tx-%d-%s", e.ntx, l))
 		sender := senderName(l.Sender)
 		vt := txpool.VerifNewTx(raw, sender, seq, l.Prio)
-		// mainQueue.Add forwards first, then adds.
-		e.impl.Forward(sender, acct)
-		err := e.impl.Add(vt, acct)
+		// through the real mainQueue.Add (the reference: the sender is forwarded to the reported account
+		// sequence first, then the transaction is added)
+		err := e.impl.QueueAdd(vt, acct)
 		m.forward(sender, acct)
 		nt := &mtx{h: vt.Hash(), sender: sender, seq: seq, prio: l.Prio}
 		s := m.senders[sender]
@@ -546,7 +546,7 @@ func main() {
 		}
 	})
 	r.Set("rule", "every operation sequence of length depth over the alphabet, for every (window base, capacity); states = executions (stateless search, each a fresh real scheduler), transitions = letters applied incl. 3 closing letters; each step compared with the reference model")
-	r.Assume("single-threaded scheduler (the mutex wrapper mainQueue is trusted)", "alphabet: 2 senders, 3 sequence offsets per window, priorities 1..3, capacities 1..3", "add is preceded by forward(sender, account sequence) as mainQueue.Add does")
+	r.Assume("single-threaded scheduler (the mutex wrapper mainQueue is trusted)", "alphabet: 2 senders, 3 sequence offsets per window, priorities 1..3, capacities 1..3", "transactions are added through the real mainQueue.Add with check-tx metadata (sender, sequence, priority, account sequence); the other letters call the scheduler it owns")
 	_ = time.Now
 	_ = sort.Strings
 	r.Finish()
